@@ -253,6 +253,9 @@ const defaultHwAddrLen = 6
 // Add the specified IP to the black list for a time period
 func (s *v4Server) blocklistLease(l *dhcpsvc.Lease) {
 	l.HWAddr = make(net.HardwareAddr, defaultHwAddrLen)
+	if l.Hostname != "" {
+		delete(s.hostsIndex, l.Hostname)
+	}
 	l.Hostname = ""
 	l.Expiry = time.Now().Add(s.conf.leaseTime)
 }
